@@ -408,8 +408,13 @@ func (its *document) IsGarbage() bool {
 	return its.snapshot().isGarbage()
 }
 
+// GetParentDocument returns the parent Document, or nil if this is the root Document.
 func (its *document) GetParentDocument() Document {
-	return its.toDocument(its.snapshot().getParent())
+	parent := its.snapshot().getParent()
+	if parent == nil {
+		return nil
+	}
+	return its.toDocument(parent)
 }
 func (its *document) GetRootDocument() Document {
 	if its.snapshot().getRoot() == its.snapshot() {
